@@ -34,6 +34,13 @@ def generate(rng, tier):
     n = 500 if tier != 'thorough' else 20000
     for _ in range(n):
         cases.append(cc.gen_history(rng, tier, 'protocol' if rng.random() < 0.75 else 'faults'))
+    # in about a tenth of the random histories the handle drops happen while another thread is inside the conductor (own random stream:
+    # the histories themselves stay what they were)
+    rng2 = random.Random(rng.getrandbits(32) ^ 0xC09D)
+    first = len(cases) - n
+    for i in range(first, len(cases)):
+        if rng2.random() < 0.1:
+            cases[i] = cc.with_locked_drops(cases[i], rng2)
     return cases
 
 
